@@ -7,6 +7,7 @@ import FgaVerif.Model.Printer
 import FgaVerif.Model.Clean
 import FgaVerif.Model.Listener
 import FgaVerif.Model.Scoped
+import FgaVerif.Model.CstParse
 import FgaVerif.Model.ModFile
 import FgaVerif.Model.PGraph
 import FgaVerif.Model.WGraph
@@ -59,6 +60,13 @@ def opConform (tree : Sexp) : String :=
     match Conform.firstBad Gen.Grammar.rules t with
     | none => "(conform true)"
     | some n => s!"(conform false {Sexp.quote n})"
+  | none => "bad-op"
+
+/-- how many relation declarations of the real tree are embeddings of a CST (hypothesis of
+    Props/C03.listener_denotes), and how many there are -/
+def opEmbeddings (tree : Sexp) : String :=
+  match Codec.decTree tree with
+  | some t => let (a, b) := Cst.countEmbeddings t; s!"(embeddings {a} {b})"
   | none => "bad-op"
 
 def opDsl2Model (text cleaned : String) (tree errs : Sexp) : String :=
@@ -213,8 +221,8 @@ def opWSpec (m : Sexp) (grouped : Bool) : String :=
     | .ok _ =>
       let g := Spec.Weights.sgraph grouped mdl
       let rs := Spec.Weights.rejects g
-      -- hypotheses of Props/C04: the iteration reached a fixed point and node names are distinct
-      if !(Spec.Weights.isFixpoint g (Spec.Weights.weights g) && decide ((g.map (·.name)).Nodup)) then "(unconverged)"
+      -- hypotheses of Props/C04, C05, C11: the iteration reached a fixed point, node names are distinct, every referenced node exists
+      if !(Spec.Weights.isFixpoint g (Spec.Weights.weights g) && decide ((g.map (·.name)).Nodup) && Spec.Weights.closedB g) then "(unconverged)"
       else if !rs.isEmpty then
         let kinds := (rs.map fun r => match r with
           | .rewriteCycle _ => "rewrite-cycle" | .operatorOnCycle _ => "operator-on-cycle" | .noTerminal _ => "no-terminal").eraseDups
@@ -249,6 +257,7 @@ def step (line : String) : String :=
   | some (.list [.atom "dsl2model", .str text, .str cleaned, tree, errs]) => opDsl2Model text cleaned tree errs
   | some (.list [.atom "scoped", tree]) => opScoped tree
   | some (.list [.atom "conform", tree]) => opConform tree
+  | some (.list [.atom "embeddings", tree]) => opEmbeddings tree
   | some (.list [.atom "merge", .str schema, .list files]) => opMerge schema files
   | some (.list [.atom "merge-wf", .list files]) => opMergeWF files
   | some (.list [.atom "pgraph", m]) => opPGraph m 0
